@@ -96,11 +96,13 @@ def run(tier, seed, replay=None):
         if cls in seen or len(ck.violations) >= 8:
             continue
         seen.add(cls)
-        c2 = os.path.join(wd, 'confirm.txt'); t2 = os.path.join(wd, 'confirm.ndjson')
-        write_cases(c2, [case]); sh([exe, c2, t2], timeout=60)
-        v2 = validate_trace(wd, 'Trace_Cubic', 'Trace_Cubic.cfg', t2, nsplit=1)
-        if v2['rejected']:
-            ck.violation('%s alias=%s case=%s' % (cls, rec.get('alias'), ' '.join(x if isinstance(x, str) else hex(x) for x in case)),
-                         'recorded result is not the exact result in F_p[x]/(x^3-x-1): %s' % json.dumps(vlib.compact(rec))[:300], dict(cases=[list(case)], event=rec))
+        ci = rec.get('ci', 1)
+        how = vlib.confirm_case(wd, 'Trace_Cubic', 'Trace_Cubic.cfg', lambda cp, tp: [exe, cp, tp], write_cases, cases, ci)
+        if how:
+            ck.violation('%s alias=%s case=%s%s' % (cls, rec.get('alias'), ' '.join(x if isinstance(x, str) else hex(x) for x in case), vlib.HIST if how == 'history' else ''),
+                         'recorded result is not the exact result in F_p[x]/(x^3-x-1): %s' % json.dumps(vlib.compact(rec))[:300],
+                         dict(cases=[list(x) for x in (cases[:ci] if how == 'history' else [case])], event=rec))
+        else:
+            ck.note('rejection of %s not reproduced on re-run (neither alone nor after its process history)' % cls)
     ck.cov['cases'] = len(cases); ck.cov['rejected_records'] = len(v['rejected'])
     return ck.finish()
